@@ -12,7 +12,7 @@ import (
 
 func init() {
 	registerProperty(&Property{
-		ID: "C09",
+		ID:          "C09",
 		Explanation: "Decides structural necessary conditions of the combining buffers: (R1) the load factor is a constant in (0,1) and the growth threshold is derived from it (so an empty slot always exists and probing terminates), constant table sizes are powers of two, growth doubles, mask = size-1, and the insert-or-combine loop and the rehash loop probe identically (same seeded start, same step, try from 1); (R2) a hit is decided by symmetric not-less on the same two rows; (R3) frames are sorted immediately before they are spilled or handed to the merge; (R4) Compact clears the hit count of every slot it visits and resets the length; (R5) the spill directory is removed on every exit of Reader and by Discard; (R6) errors of spilling, combining and writing are reported on every path; (R7) both arms of the probe mark the slot occupied, the rehash carries hit counts and rows over, and the new value is stored in the slot that matched. Not decided: the folded values, ascending order of the output, behaviour under every collision pattern (value-level).",
 		Rules: []Rule{
 			{ID: "C09-R1", Doc: "probing terminates and the two probe loops agree", Run: c09r1},
@@ -22,6 +22,7 @@ func init() {
 			{ID: "C09-R5", Doc: "spill files removed on read-back and discard", Run: c09r5},
 			{ID: "C09-R6", Doc: "combine errors propagate", Run: c09r6},
 			{ID: "C09-R7", Doc: "slot bookkeeping in both probe arms and in rehash", Run: c09r7},
+			{ID: "C09-R8", Doc: "every combiner created or taken is read back, discarded or handed on, on every path", Run: c09r8},
 		},
 	})
 }
